@@ -526,8 +526,16 @@ func c16Interleavings(c *Ctx, docJSON string, ops []qop, threads int) {
 	}
 	d0 := string(h.Marshal(sw0))
 	run := func(sel []int) {
+		if c16ScheduleBudget > 0 && c16SchedulesRun >= c16ScheduleBudget {
+			if !c16BudgetReported {
+				c16BudgetReported = true
+				c.Cap(fmt.Sprintf("schedule budget of this shard (%d schedules) used up: the remaining goroutine harnesses were not explored (many operations execute synchronisation operations)", c16ScheduleBudget))
+			}
+			return
+		}
 		e := mcx.New()
 		e.MaxExec = 2000
+		defer func() { c16SchedulesRun += e.Stats.Executions }()
 		var answers []string
 		var s *mcrt.Sched
 		var sw *spec.Swagger
@@ -608,6 +616,14 @@ func c16Interleavings(c *Ctx, docJSON string, ops []qop, threads int) {
 	}
 }
 
+// schedule budget of one shard for the goroutine layer (0: none): on a tree where many operations synchronise the number of
+// schedules per harness explodes; the layer then covers the first documents fully and reports the cap
+var (
+	c16ScheduleBudget int64
+	c16SchedulesRun   int64
+	c16BudgetReported bool
+)
+
 // c16RacePass: free-running goroutines on one shared Spec (run only in a -race build of the worker).
 func c16RacePass(c *Ctx) {
 	h.FreeRunning = true
@@ -661,6 +677,11 @@ func init() {
 		c.Bounds["documents"] = len(docs)
 		c.Bounds["sequence_depth"] = 3
 		c.Bounds["interleavings"] = "2 goroutines x 1 call: every ordered pair of operations, all schedules; 3 goroutines over the operations that execute synchronisation operations"
+		c16ScheduleBudget, c16SchedulesRun, c16BudgetReported = 150000, 0, false
+		if c.Thorough() {
+			c16ScheduleBudget = 3000000
+		}
+		c.Bounds["schedule_budget_per_shard"] = c16ScheduleBudget
 		for k, d := range docs {
 			if !c.Mine(int64(k)) {
 				continue
@@ -671,6 +692,7 @@ func init() {
 				c16Interleavings(c, d, ops, 2)
 				c16Interleavings(c, d, ops, 3)
 			}
+			c.Counters["schedules_explored"] = c16SchedulesRun
 			c.NonTrivial++
 			if k < 2 {
 				c.Sample(J{"doc": json.RawMessage(d), "operations": len(ops)})
